@@ -52,6 +52,11 @@ DEFS = {
     "anyof": [{"name": "tests", "type": ["testlist"], "required": True}],
     "not": [{"name": "test", "type": ["test"], "required": True}],
     "stop": [],
+    # a tag whose parameter (a string list) is taken only after one of its spellings (body, RFC 5173)
+    "body": [COMPARATOR, MATCH_TYPE,
+             {"name": "body-transform", "values": [":raw", ":content", ":text"], "extra_arg": {"type": "stringlist", "valid_for": [":content"]},
+              "type": ["tag"], "required": False},
+             {"name": "key-list", "type": ["string", "stringlist"], "required": True}],
     # only optional slots (keep, with imap4flags)
     "keep": [{"name": "flags", "type": ["tag"], "values": [":flags"], "extra_arg": {"type": ["string", "stringlist"]}, "extension": "imap4flags"}],
     # an extension-bound tag between two positional slots
@@ -163,6 +168,13 @@ SEQUENCES = [
     ("folder", [(T, ":kind"), (S, '"WORK"'), (S, '"x"')]),
     ("folder", [(T, ":kind"), (L, ['"work"']), (S, '"x"')]),
     ("folder", [(T, ":kind"), (S, '"work"'), (S, '"x"')]),
+    ("body", [(T, ":content"), (L, ['"text"', '"html"']), (T, ":contains"), (S, '"x"')]),
+    ("body", [(T, ":content"), (S, '"text"'), (S, '"x"')]),
+    ("body", [(T, ":CONTENT"), (L, ['"text"']), (L, ['"x"', '"y"'])]),
+    ("body", [(T, ":raw"), (L, ['"x"', '"y"'])]),
+    ("body", [(T, ":text"), (T, ":matches"), (S, '"*x*"')]),
+    ("body", [(T, ":content"), (N, "1"), (S, '"x"')]),
+    ("body", [(L, ['"x"'])]),
     # the parser probes with add=False before it builds the test of a test list
     ("anyof", [("test", "<test 1>"), ("test", "<test 2>")], False),
     ("anyof", [(S, '"x"')], False),
@@ -537,6 +549,8 @@ def _arg_eval(ctx, R):
                         aspects.add("verdict")
                         if any(str(x).startswith("ExtensionNotLoaded") for x in got[0] + want[0]):
                             aspects.add("gate")
+                    if any(isinstance(x, str) and x.split(":")[0] not in ("BadArgument", "BadValue", "ExtensionNotLoaded") for x in got[0]):
+                        aspects.add("crash")  # an exception that parse() does not turn into a verdict
                     if got[1] != _plain(want[1]) or got[2] != _plain(want[2]):
                         aspects.add("stored")
                     if got[3] != want[3]:
